@@ -256,6 +256,14 @@ func TestOraclePlanted(t *testing.T) {
 			evs[i].seq = 9
 			return evs
 		}},
+		{"failed-write-keeps-seq", "", true, func(evs []event) []event {
+			// a transport write that failed is followed by one with the same sequence number
+			i := find(evs, func(e event) bool { return e.kind == evTW && e.side == 1 && e.typ == 94 }, 3)
+			out := append([]event(nil), evs[:i]...)
+			out = append(out, event{kind: evTW, side: 1, typ: 94, seq: evs[i].seq, n: 20, wid: 9, ctr: 9},
+				event{kind: evTWA, side: 1, typ: 94, seq: evs[i].seq, err: true})
+			return append(out, evs[i:]...)
+		}},
 		{"stream-mismatch", "tap-stream-mismatch", true, func(evs []event) []event {
 			i := find(evs, func(e event) bool { return e.kind == evTR && e.side == 1 && e.typ == 94 }, 1)
 			evs[i].ctr ^= 8
